@@ -66,16 +66,25 @@ def _repack(obj):
 def oracle(ctx):
   fails = []
   small = ctx.outcome.model
+  # The large path runs on ONE Quantizer object per graph that is re-used for
+  # every recipe (load -> quantize -> load -> quantize ...): the bytes must not
+  # depend on what that object serialized before.
+  import copy as _copy
+  L_ = __import__('vf.env', fromlist=['lib']).lib()
+  qt = getattr(ctx.built, '_c16_qt', None)
   os.environ[THR] = '-1'
   try:
-    out = pipeline.quantize(ctx.built.model, ctx.recipe, cal=ctx.outcome.cal_snapshot
-                            if ctx.outcome.cal_snapshot is not None else None,
-                            cal_data=[ctx.data], key=ctx.built.keys[0])
+    if qt is None:
+      qt = L_.quantizer.Quantizer(ctx.built.model, _copy.deepcopy(ctx.recipe))
+      ctx.built._c16_qt = qt
+    else:
+      qt.load_quantization_recipe(_copy.deepcopy(ctx.recipe))
+    large = bytes(qt.quantize(_copy.deepcopy(ctx.outcome.cal_snapshot)
+                              ).quantized_model)
+  except Exception as e:
+    return [ctx.fail('large_path_raises', f'{type(e).__name__}: {e}'[:200])]
   finally:
     os.environ.pop(THR, None)
-  if not out.returned:
-    return [ctx.fail('large_path_raises', out.exc_key())]
-  large = out.model
   L = s.ModelT.InitFromPackedBuf(large, 0)
   S = s.ModelT.InitFromPackedBuf(small, 0)
   if large == small and any(b.data is not None and len(b.data)
